@@ -13,11 +13,12 @@ files the flattened model of *every* class must equal the one obtained from the 
 the same flattened models too, and the CasADi model of one class must be the same for two
 opposite walk orders.
 
-Tie: each file's tree is compared with the Lean `fileToTree`, and the merged tree (class paths in
+Tie: each file's tree is compared with the Lean `fileToTree`, name lookups on a merged tree
+(`Class._find_class` from random scopes) with `findClass`, and the merged tree (class paths in
 dictionary order with a digest of each class's own content) with `mergeAll` / `mergeAllFromEmpty`
-of `Model/Merge.lean` (driver `drv_c27`) in the variants `asis` (`keepFirst`) and `fixed`
-(`fill`: proposed_fixes/C27-1.diff); the implementation must agree with one of them, the same one
-throughout the run.
+of `Model/Merge.lean` (driver `drv_c27`), variant `fixed` (`fill`: the code as it is since commit
+07f5409 = proposed_fixes/C27-1.diff, which fixed finding C27-F1; `asis` = `keepFirst`, the code before,
+is only consulted to label a disagreement, unless known/C27.json lists C27-F1 as open again).
 """
 import contextlib
 import hashlib
@@ -43,8 +44,11 @@ ASSUMPTIONS = [
     "flat models are compared as canonical JSON of the flattened class; against the unsplit library the per-file symbol "
     "counter `order` is left out (it restarts in every file), across permutations it is kept",
     "main stream: no package on a file's `within` path has content of its own besides classes; the stream 'payload' holds the "
-    "splits where one has (input class of the open finding C27-F1) and there only the orders in which every such package's own "
-    "file comes before the files within it are required to agree",
+    "splits where one has (input class of finding C27-F1, fixed by 07f5409): all orders are required to agree there too, the "
+    "orders in which a `within` file precedes the package's own file are counted as `order:shadowed`",
+    "open finding C27-F2: flattening a class that *contains* nested classes visits them in dictionary order and is not "
+    "independent of that order when one of them fails to flatten on its own (C07's inherited-component-type lookup); the "
+    "merged trees are equal up to sibling order there, the flat model of the enclosing package is not",
 ]
 
 PH = "PH"
@@ -208,7 +212,9 @@ def compare_with_model(ctx, drv, small, mfiles, order, start, impl_forest, name)
     """impl must equal the as-is or the fixed model, consistently over the run."""
     res = {v: ask(drv, {"op": "merge.all", "variant": v, "start": start, "order": list(order), "files": mfiles})
            for v in ("asis", "fixed")}
-    ok = [v for v in ("asis", "fixed") if res[v] == impl_forest]
+    # once C27-F1 is listed as fixed, only the fixed variant is the code
+    accepted = ("fixed",) if any(k["id"] == "C27-F1" and k.get("status") == "fixed" for k in ctx.known) else ("asis", "fixed")
+    ok = [v for v in accepted if res[v] == impl_forest]
     if not ok:
         ctx.disagreement(name, dict(small, order=list(order), start=start),
                          model={v: paths_of(res[v]) for v in res}, impl=paths_of(impl_forest))
@@ -260,7 +266,11 @@ def check_library(ctx, case, drv, walks=True):
             mt = ask(drv, {"op": "merge.file", "file": mfiles[-1]}) if cs is not None else None
             if mt != fo:
                 ctx.disagreement("merge.file_to_tree", {"file": f}, model=paths_of(mt or []), impl=paths_of(fo))
-    small = {"files": files, "unsplit": case["unsplit"], "classes": classes, "meta": meta, "stream": case.get("stream")}
+    small = {"files": files, "unsplit": case["unsplit"], "classes": classes, "meta": meta, "stream": case.get("stream"),
+             "ref_raises": [c for c in classes if ref[c].startswith("raised:")]}
+    if small["ref_raises"]:
+        ctx.count("libraries-with-a-class-that-does-not-flatten")
+    f1_open = any(k["id"] == "C27-F1" and k.get("status") == "open" for k in ctx.known)
     orders = [list(p) for p in itertools.permutations(range(nf))]
     flat_orders = orders
     if case.get("flatten_sample") and len(orders) > case["flatten_sample"]:
@@ -308,11 +318,39 @@ def check_library(ctx, case, drv, walks=True):
     for order in orders:
         sh = shadowed(meta, order)
         ctx.count("order:shadowed" if sh else "order:clean")
+        sh = sh and f1_open        # only while C27-F1 is open are those orders allowed to differ
         t = merge_in_order(files, order)
         fo = forest_of(t)
         oracle(t, fo, order, sh, do_flat=order in flat_orders)
         if drv is not None:
             compare_with_model(ctx, drv, small, mfiles, order, "first", fo, "merge.extend")
+    # ---- name lookup on one merged tree: Class._find_class against the model's findClass
+    if drv is not None:
+        sub = random.Random(case.get("walk_seed", 0) + 1)
+        order = sub.choice(orders)
+        t = merge_in_order(files, order)
+        paths = [c.split(".") for c in classes]
+        queries = []
+        for _ in range(12):
+            scope = sub.choice(paths + [[]])
+            target = sub.choice(paths)
+            r = sub.random()
+            if r < 0.45:
+                cref = target[sub.randrange(len(target)):]           # a relative spelling (may or may not resolve)
+            elif r < 0.8:
+                cref = list(target)
+            else:
+                cref = target[:-1] + ["Nope"] if sub.random() < 0.5 else ["Nope"] + target[-1:]
+            queries.append([scope, cref])
+        impl = [find_class_impl(t, sc, rf) for sc, rf in queries]
+        ans = drv.ask({"op": "merge.find", "ph": PH, "variant": "asis", "order": order, "files": mfiles, "queries": queries})
+        if not ans.get("ok"):
+            raise HarnessError("model driver rejected merge.find: %s" % ans)
+        ctx.count("lookups", len(queries))
+        ctx.count("lookups-resolved", sum(1 for x in impl if isinstance(x, list)))
+        if ans["found"] != impl:
+            k = [i for i in range(len(queries)) if ans["found"][i] != impl[i]][0]
+            ctx.disagreement("merge.find_class", dict(small, order=order, query=queries[k]), model=ans["found"][k], impl=impl[k])
     # ---- the directory walks, on one random order and its reverse
     if walks:
         sub = random.Random(case.get("walk_seed", 0))
@@ -320,7 +358,7 @@ def check_library(ctx, case, drv, walks=True):
         sub.shuffle(o1)
         cas = {}
         for order in (o1, o1[::-1]):
-            sh = shadowed(meta, order)
+            sh = shadowed(meta, order) and f1_open
             root = os.path.join(ctx.scratch, "c27-lib")
             shutil.rmtree(root, ignore_errors=True)
             d = root
@@ -339,19 +377,37 @@ def check_library(ctx, case, drv, walks=True):
                     continue
                 ctx.count("walk:" + wname)
                 fo = forest_of(tree_)
-                oracle(tree_, fo, worder, shadowed(meta, worder), walk=wname)
+                oracle(tree_, fo, worder, shadowed(meta, worder) and f1_open, walk=wname)
                 if drv is not None:
                     compare_with_model(ctx, drv, small, mfiles, worder, start, fo, "merge.walk-" + wname)
             # the CasADi model of one class through the real _compile_model
             target = case.get("casadi_class")
             if target and not sh:
                 cas[tuple(order)] = casadi_model(root, target)
+                ctx.count("casadi-model:" + ("raised-" + cas[tuple(order)]["raised"] if "raised" in cas[tuple(order)] else "built"))
         vals = list(cas.items())
         if len(vals) == 2 and vals[0][1] != vals[1][1]:
             ctx.violation("CasADi model differs between two directory-walk orders",
                           dict(small, order=list(vals[1][0]), other_order=list(vals[0][0]), shadowed=False, cls=case["casadi_class"]),
                           expected=vals[0][1], observed=vals[1][1], kind="history")
         shutil.rmtree(os.path.join(ctx.scratch, "c27-lib"), ignore_errors=True)
+
+
+def find_class_impl(t, scope, ref):
+    """Full path of the class `_find_class` finds for `ref` from the class at path `scope` (None: not found)."""
+    from pymoca import ast
+    c = t
+    for n in scope:
+        if n not in c.classes:
+            return "scope-missing-in-merged-tree"
+        c = c.classes[n]
+    try:
+        r = c._find_class(ast.ComponentRef.from_string(".".join(ref)), search_imports=False)
+        return list(r.full_reference().to_tuple())
+    except ast.ClassNotFoundError:
+        return None
+    except Exception as e:  # noqa: BLE001
+        return "raised:" + type(e).__name__
 
 
 def walk_trees(root, rels, order, classes):
@@ -452,7 +508,7 @@ def run(ctx):
         ctx.count("corpus")
         ctx.case({"files": [f["text"] for f in c["files"]]}, nontrivial=True)
         check_library(ctx, c, drv)
-    n = 32 if quick else 700
+    n = 45 if quick else 700
     for i in range(n):
         if ctx.time_left() < 0:
             ctx.notes.append("stopped by time budget after %d libraries" % i)
@@ -499,4 +555,4 @@ MANIFEST = dict(
                "`flatten_order_independent` and exercised by the direct oracle on every case.",
     technique="Lean 4 proof (structural induction over forests, paths and file lists) + model/implementation correspondence + direct oracle",
 )
-READY = False
+READY = True
